@@ -31,6 +31,8 @@ import html as _html
 WORDS = ['alpha', 'beta', 'gamma', 'delta', 'epsilon', 'lorem', 'ipsum', 'dolor', 'sit', 'amet', 'über', 'naïve', 'Straße', '中文',
          'x1', 'a2b', 'Zeta', 'ETA', 'theta', 'iota', 'kappa', 'lambda', 'mu', 'nu', 'xi', 'omicron', 'pi', 'rho', 'sigma', 'tau']
 CODE_WORDS = ['code', 'x = y', 'a*b', '_id_', 'f(x)', '<tag>', 'a & b', '[i]', 'foo  bar', '"q"', "it's", '~~no~~', '\\n', 'a|b', '**x**', '&amp;']
+# code-span contents whose space-separated pieces cannot be mistaken for a block marker when a reflow puts them at the start of a line
+PROSE_CODE_WORDS = ['code', 'a*b', '_id_', 'f(x)', 'foo  bar', '"q"', "it's", '~~no~~', '\\n', '**x**', '&amp;', 'a & b', 'one two three', 'x(1) y']
 DESTS = ['/url', '/path/to/page', 'http://example.com/', 'http://example.com/a?b=c#frag', '#anchor', 'page.html', '/a(b)c', '/x_y', '/q?a=1&b=2',
          'https://example.org/index.html']
 ANGLE_DESTS = ['my url', 'a(b', '/x y/z']
@@ -53,9 +55,9 @@ HTML7 = [['<x-note>', 'text *here*'], ['<my-tag attr="v">'], ['</x-note>'], ['<a
 PROFILES = {
     # switches: see generate()
     'full': {},
-    'roundtrip': dict(entities=False, indent4_cont=False),
-    'normalform': dict(entities=False, indent4_cont=False, canonical=True),
-    'prose': dict(entities=False, indent4_cont=False, prose=True),
+    'roundtrip': dict(entities=False, indent4_cont=False, table_escaped_pipe=False, empty_items=False),
+    'normalform': dict(entities=False, indent4_cont=False, canonical=True, table_escaped_pipe=False, empty_items=False, blank_start_items=False),
+    'prose': dict(entities=False, indent4_cont=False, prose=True, table_escaped_pipe=False, empty_items=False),
     'outline': dict(outline=True),
 }
 
@@ -72,6 +74,7 @@ class Opt:
         self.setext_space_hard_break = False   # known finding C03-setext-trailing-space-hard-break
         self.tilde_code_in_strike = False      # known finding C03-strike-vs-code-tilde
         self.empty_last_item = False           # known finding C03-empty-last-item-swallows-blank
+        self.table_escaped_pipe = True         # off for the round-trip profiles (known finding C09-escaped-pipe-in-table-cell)
         self.table_first_in_item = False   # known finding C03-table-starts-later-list-item
         self.lazy = True
         self.omit_blank = True
@@ -134,9 +137,13 @@ def gen_atom(rng, opt, depth, allow_link=True, emph_char=None, in_strike=False, 
     if r < 0.40:
         return ('text', word(rng))
     if r < 0.50:
-        c = rng.choice(CODE_WORDS)
+        c = rng.choice(CODE_WORDS if not opt.prose else PROSE_CODE_WORDS)
         if in_strike and '~~' in c and not opt.tilde_code_in_strike:
             c = 'code'        # known finding C03-strike-vs-code-tilde
+        if breaks and not opt.canonical and rng.random() < 0.12:
+            # 6.1: line endings inside a code span become spaces; the next line starts with a word (R1)
+            c = rng.choice(('alpha\nbeta', 'x = 1\ny', '\nmake install', 'one\ntwo\nthree') if not opt.prose else ('alpha\nbeta', '\nmake install', 'one\ntwo\nthree'))
+            return ('code', c, rng.choice((1, 2)), False)
         return ('code', c, rng.choice((1, 1, 2)), rng.random() < 0.25)
     if r < 0.55:
         ch = rng.choice(ESCAPABLE)
@@ -158,6 +165,8 @@ def gen_atom(rng, opt, depth, allow_link=True, emph_char=None, in_strike=False, 
     if r < 0.95 and opt.entities:
         return ('ent',) + rng.choice(ENTITIES)
     if r < 0.98 and opt.html and not opt.prose:
+        if breaks and rng.random() < 0.2:
+            return ('html', rng.choice(('<!-- note\nmore\nend -->', '<span\nclass="x">', '<!-- a\nb -->')))
         return ('html', rng.choice(RAW_HTML))
     return ('text', word(rng))
 
@@ -183,6 +192,8 @@ def gen_link(rng, opt, depth, image, in_strike=False, breaks=False):
     angle = rng.random() < 0.15
     dest = rng.choice(ANGLE_DESTS) if angle else rng.choice(DESTS)
     title = rng.choice(TITLES) if rng.random() < 0.35 else ''
+    if title and breaks and rng.random() < 0.25:
+        title = rng.choice(('one\ntwo', 'one\ntwo\nthree words'))      # 6.3: a title may span lines (no blank line)
     tq = rng.choice('"\'(')
     if title and ((tq == '"' and '"' in title) or (tq == "'" and "'" in title) or (tq == '(' and ('(' in title or ')' in title))):
         tq = next(q for q in '"\'(' if not ((q == '"' and '"' in title) or (q == "'" and "'" in title) or (q == '(' and '(' in title)))
@@ -298,7 +309,7 @@ def atom_html(nd):
     if k == 'text':
         return esc(nd[1])
     if k == 'code':
-        return '<code>' + esc(nd[1]) + '</code>'
+        return '<code>' + esc(nd[1].replace('\n', ' ')) + '</code>'
     if k == 'esc':
         return esc(nd[1]) + esc(nd[2])
     if k in ('em', 'strong'):
@@ -337,7 +348,7 @@ def atom_plain(nd):
     if k == 'text':
         return nd[1]
     if k == 'code':
-        return nd[1]
+        return nd[1].replace('\n', ' ')
     if k == 'esc':
         return nd[1] + nd[2]
     if k in ('em', 'strong'):
@@ -436,6 +447,8 @@ class Gen:
         level = rng.randint(1, 6)
         inl = gen_inlines(rng, self.opt, allow_breaks=False, simple=True) if rng.random() > 0.04 else []
         closing = rng.choice(('', '', '', '#', '##', '#' * level, '######## '))
+        if not inl and self.opt.canonical:
+            closing = ''           # an empty heading keeps no closing sequence in the renderer's own form
         return Node('atx', level=level, inl=inl, closing=closing.strip())
 
     def setext(self):
@@ -475,9 +488,11 @@ class Gen:
         rng = self.rng
         ncol = rng.randint(1, 4)
         aligns = [rng.choice((None, None, 'left', 'center', 'right')) for _ in range(ncol)]
+        if self.opt.canonical:
+            aligns = [None if a == 'left' else a for a in aligns]
 
         def cell():
-            if rng.random() < 0.15:
+            if rng.random() < 0.15 and self.opt.table_escaped_pipe:
                 return [('text', word(rng)), ('literal', '|', '\\|'), ('text', word(rng))]
             for _ in range(20):
                 c = gen_inlines(rng, self.opt, allow_breaks=False, simple=True)
@@ -506,7 +521,7 @@ class Gen:
         title = rng.choice(TITLES) if rng.random() < 0.4 else ''
         angle = rng.random() < 0.15
         return Node('refdef', label=label, dest=rng.choice(ANGLE_DESTS) if angle else rng.choice(DESTS), angle=angle, title=title,
-                    tq=rng.choice('"\'('), title_nl=rng.random() < 0.15)
+                    tq=rng.choice('"\'('), title_nl=rng.random() < 0.15 and not self.opt.canonical)
 
     def quote(self, depth, in_quote):
         return Node('quote', blocks=self.blocks(depth + 1, in_quote=True), space=self.rng.random() < 0.8,
@@ -750,6 +765,9 @@ class Emitter:
         return [Line(('    ' + l) if l else '', kind='icode') for l in nd.lines]
 
     def e_table(self, nd, ctx):
+        if self.opt.canonical:
+            return self.e_table_canonical(nd)
+
         def row(cells):
             s = ' | '.join(cells)
             return '| ' + s + ' |' if nd.outer else s
@@ -761,6 +779,25 @@ class Emitter:
         for r in nd.rows:
             out.append(Line(row([inl_md(c)[0] for c in r]), kind='table-row'))
         return out
+
+    def e_table_canonical(self, nd):
+        """The Markdown renderer's own table layout: cells padded to the column width (minimum 3), ':' markers."""
+        rows = [[inl_md(c)[0] for c in nd.header]] + [[inl_md(c)[0] for c in r] for r in nd.rows]
+        widths = [max(3, max(len(r[i]) for r in rows)) for i in range(len(nd.aligns))]
+
+        def fmt(cells):
+            out = []
+            for text, w, a in zip(cells, widths, nd.aligns):
+                out.append('{0: ^{w}}'.format(text, w=w) if a == 'center' else text.rjust(w) if a == 'right' else text.ljust(w))
+            return '| ' + ' | '.join(out) + ' |'
+        lines = [Line(fmt(rows[0]), kind='table')]
+        delim = []
+        for w, a in zip(widths, nd.aligns):
+            delim.append(':' + '-' * (w - 2) + ':' if a == 'center' else '-' * (w - 1) + ':' if a == 'right' else '-' * w)
+        lines.append(Line('| ' + ' | '.join(delim) + ' |', kind='table-delim'))
+        for r in rows[1:]:
+            lines.append(Line(fmt(r), kind='table-row'))
+        return lines
 
     def e_html(self, nd, ctx):
         ind = self.ind(ctx) if nd.cond in (6, 7) else ''
@@ -804,8 +841,7 @@ class Emitter:
                 out.append(ln)
                 continue
             if ln.text == '':
-                p = '>' if (self.opt.canonical is False and self.rng.random() < 0.5) else '>'
-                ln.text = ind + p
+                ln.text = ind + ('> ' if self.opt.canonical else '>')     # the renderer's own form keeps the space
             else:
                 sp = ' ' if (nd.space or self.opt.canonical or ln.text.startswith((' ', '\t'))) else ''
                 ln.text = ind + '>' + sp + ln.text
